@@ -63,9 +63,16 @@ CLAIMS = {
              "Push/Fetch/Exists/Tag/Resolve/Untag/Delete/Tags; MCStore.tla explores the model exhaustively; random "
              "operation histories (repeats, re-tags, missing content, empty and unknown references, named and unnamed "
              "file-store blobs) are executed on the real memory, OCI-layout and file stores and StoreMon.tla replays "
-             "the model alongside, comparing every result and the full observable projection after every step.",
-        note="Sequential histories; the concurrent clause (quiescent state equals some sequential order) is not yet "
-             "exercised by this check. References are never another node's digest string.",
+             "the model alongside, comparing every result and the full observable projection after every step. Half of the "
+             "histories end in a concurrent tail: 2-3 operations run as goroutines released one at a time at the "
+             "verif-tagged scheduling points inside the stores (storage check/act steps, tag resolver, predecessor "
+             "index); StoreMon.tla runs every order of those operations through the model (ExpectOn) and requires the "
+             "quiescent observation to be the state of one of them, and every concurrent Fetch that succeeded to have "
+             "returned matching bytes.",
+        note="The concurrent clause is judged on the quiescent state (as the property words it), not on the results "
+             "returned by the concurrent calls. Schedules are best-effort controlled (a goroutine blocked on a lock "
+             "held by a parked one is detected by a quiet period); the judgement does not depend on the schedule. "
+             "References are never another node's digest string.",
         ref="3 C06", technique=TECH + " (StoreMon.tla, deterministic model replayed against recorded histories)"),
     "C07": dict(
         text="Same histories and model; after every step Predecessors is read for every node of the universe (present or "
@@ -172,15 +179,17 @@ CLAIMS = {
              "Repository.Tags, Registry.Repositories and Repository.Referrers against a scripted server that counts the bytes "
              "consumed from each response, and PagingJudge.tla checks delivery, error propagation, the read limit and the "
              "request paths, and that pages, requests and outcome equal the model's run.",
-        note="The sorted / last-honouring OCI-layout Tags listing is judged in the store family (StoreMon TagsListing, C06). The "
-             "scripted server is itself validated against PagingModel (L2).",
+        note="The OCI-layout Tags listing is a fourth API of the same case space (api ocitags: a sorted universe of names of "
+             "which a subset are tags, last any name of the universe, tag or not; read-write store and the layout opened "
+             "read-only). The scripted server is itself validated against PagingModel (L2).",
         ref="3 C15", technique="TLA+ model of client loop and server model-checked with TLC; TLC-emitted cases replayed into the "
                               "code, judged and compared with the model by TLC"),
     "C16": dict(
         text="Auth.tla models auth.Client.Do for Bearer registries with the scope-keyed cache and the Once-coalesced token "
              "fetch for up to 3 concurrent requests over two hosts and every realm placement, with NoLeak, Bounded, ReuseKey and "
              "one-fetch-per-key as invariants over all interleavings; the real auth.Client then serves generated histories "
-             "(sequential, identical concurrent calls, concurrent mixes over two registries; none/Basic/Bearer schemes; realms on "
+             "(sequential, identical concurrent calls, concurrent mixes over two registries that share a hostname and differ in "
+             "the port only; none/Basic/Bearer schemes; realms on "
              "the own host, a token service or the other registry; password, refresh-token and access-token credentials; scope "
              "hints in any order and duplication; scheme changes; shared, single-context and no cache) through a gated innermost "
              "RoundTripper under synctest, and AuthMon.tla judges every outgoing request (which known secrets it carries, also "
